@@ -283,10 +283,15 @@ void gen_chain(rng_t *r, int maxlinks, long maxN, int flags, chaindesc_t *d){
     case 4: d->serial[i]=i; break;
     default: d->serial[i]=base-i*1000003; break;
     }
+    if((flags&GC_BIGPAGES) && rng_chance(r,0.06)){
+      c->channels= rng_chance(r,0.15)?255:(int)rng_range(r,12,64); c->rate=44100; c->mode=ENC_VBR; c->quality=1.0f;
+      c->sig= rng_chance(r,0.5)?SIG_ALT:SIG_NOISE; c->nsamples=rng_range(r,1500,c->channels>100?2600:7000); c->chunk=CHUNK_1024;
+    }
     for(int j=0;j<i;j++) if(d->serial[j]==d->serial[i]){ d->serial[i]=(int)(hash64(d->serial[i]+i*7919)&0x7fffffff); j=-1; }
     int ps=(int)rng_below(r,100);
     d->policy[i]= ps<35?PAGE_DEFAULT: ps<55?PAGE_FLUSH_EACH: ps<85?PAGE_FILL:PAGE_RANDOM;
-    { int fs=(int)rng_below(r,5); d->fill[i]= fs==0?1: fs==1?255: fs==2?(int)rng_range(r,256,2000): fs==3?(int)rng_range(r,2000,12000):(int)rng_range(r,12000,65025); }
+    if(c->channels>8 && c->quality>=1.0f){ d->policy[i]= rng_chance(r,0.5)?PAGE_FILL:PAGE_DEFAULT; }
+    { int fs=(int)rng_below(r,5); if(c->channels>8) fs=4; d->fill[i]= fs==0?1: fs==1?255: fs==2?(int)rng_range(r,256,2000): fs==3?(int)rng_range(r,2000,12000):(int)rng_range(r,12000,65025); }
   }
 }
 int build_chain(const chaindesc_t *d, buf_t *out, size_t *link_off){
